@@ -1,4 +1,4 @@
-import DoitModel.Proofs.RunClosure2
+import DoitModel.Proofs.RunLive2
 /-! # C02 — each needed task is processed exactly once; nothing else runs
 
 Property theorems only (model: `Model/Run.lean`; invariants: `Proofs/Run*.lean`).
@@ -111,6 +111,24 @@ theorem C02_closure_excludes_lazy_setup : ¬ Cl exUtd 1 := by
     | ofRes _ h => simp [exUtd] at h
   have := key 1 h; cases this
 
+/-- C02 (completeness part) for the serial runner: if the run ends because the dispatcher has nothing left — it was
+    not cut short by a failure without `--continue` (`stop = false`) nor by an internal error / a cyclic-dependency
+    error (`halt = none`) — then every task in the closure of the selection (`RunCl`: the selection, closed under
+    task_dep and calc_dep as extended by calc results, and under the setup-tasks of tasks chosen for execution) has
+    exactly one terminal report: it was executed, skipped as up-to-date, skipped as ignored, or reported failed/unmet,
+    once.  No acyclicity hypothesis is needed: a cyclic closure makes the run end with `halt = cyclic`. -/
+theorem C02_all_processed_serial (inp : RunInput) (s : Sys) (hr : Reach inp s) (hend : s.rpc = .halted)
+    (hhalt : s.halt = .none) (hstop : s.stop = false) (t : Name) (ht : RunCl inp s t) :
+    s.events.countP (Ev.isTerminalOf t) = 1 :=
+  all_processed_serial hr hend hhalt hstop t ht
+
+/-- the same statement for the parallel runners; not proved yet (needs the `free_proc` / `proc_count` accounting
+    invariant I9 to show that the main loop does not leave results unprocessed).  The monitor `monC02AllProcessed`
+    evaluates it on every thread / process trace of the implementation. -/
+def C02_all_processed_parallel_full : Prop :=
+  ∀ (inp : RunInput) (s : Sys), PReach inp s → s.rpc = .halted → s.halt = .none → s.stop = false →
+    ∀ t, RunCl inp s t → s.events.countP (Ev.isTerminalOf t) = 1
+
 /-! ### non-vacuity -/
 
 /-- a shared dependency (`0` below `1`, `2`, `3`), a shared setup-task (`4` of `1` and `2`), `0` selected twice more;
@@ -126,5 +144,12 @@ def exShared : RunInput :=
 example : ∃ s, PReach exShared s ∧ s.events.contains Ev.complete = true ∧
     ((List.range 5).all fun t => s.events.countP (Ev.isStartOf t) == 1 && s.events.countP (Ev.isTerminalOf t) == 1) = true :=
   ⟨_, autoRun_preach (by decide) false true 600 _ PReach.init, by decide +kernel⟩
+
+/-- the hypotheses of `C02_all_processed_serial` are met by a real run: the shared-dependency graph above under the
+    serial runner ends normally, and its sink-side tasks are in the run's closure -/
+example : ∃ s, Reach { exShared with runner := .serial, numProc := 0 } s ∧ s.rpc = .halted ∧ s.halt = .none ∧
+    s.stop = false ∧ RunCl { exShared with runner := .serial, numProc := 0 } s 0 :=
+  ⟨_, autoRun_reach (by decide) false false 600 _ Reach.init, by decide +kernel, by decide +kernel,
+    by decide +kernel, RunCl.ofSel (by decide)⟩
 
 end DoitModel.C02
